@@ -59,11 +59,14 @@ def main():
     if keep:
         dst = os.path.join(VERIF, 'seeded', keep)
         os.makedirs(dst, exist_ok=True)
-        shutil.copy(patch, os.path.join(dst, 'patch.diff'))
-        shutil.copy(demo, os.path.join(dst, 'demo.py'))
+        if os.path.abspath(dst) != os.path.abspath(d):
+            shutil.copy(patch, os.path.join(dst, 'patch.diff'))
+            shutil.copy(demo, os.path.join(dst, 'demo.py'))
         notes = ''
         if os.path.exists(os.path.join(d, 'notes.txt')):
             notes = open(os.path.join(d, 'notes.txt')).read()
+        elif os.path.exists(os.path.join(dst, 'meta.json')):
+            notes = json.load(open(os.path.join(dst, 'meta.json'))).get('needs_to_manifest', '')
         meta = dict(property=prop, needs_to_manifest=notes, ran=[
             'git -C /repo apply patch.diff',
             'cd /repo && /venv/bin/python -m pytest -q tests  -> ' + res.get('tests', ''),
